@@ -85,7 +85,7 @@ fn check_built_slot(cx: &Cx, p: &RProtected, l: &mut Local) {
             }
         } else {
             let ok = match read_all(&bytes) {
-                ReadAll::One(e) => e.is_deterministic() && matches!(e.item(), Item::Map(_)) && eq_cose(&e.item(), &enc_header(&p.header)),
+                ReadAll::One(e) => e.is_definite() && matches!(e.item(), Item::Map(_)) && eq_cose(&e.item(), &enc_header(&p.header)),
                 _ => false,
             };
             if !ok {
